@@ -604,29 +604,43 @@ class Channel(typing.ContextManager):
         if self.death_strings == []:
             return
 
-        # Chunk size is the shortest death-string.
-        chunk_size = min(
-            map(lambda t: typing.cast(int, t[2].maxlen), self.death_strings)
+        # Chunk size is the length of the shortest death-string (half of its
+        # ringbuffer).  This way, every ringbuffer still holds at least
+        # `len(string) - 1` bytes of history when a new chunk is appended and
+        # no occurrence can be cut in two.
+        chunk_size = max(
+            1,
+            min(map(lambda t: typing.cast(int, t[2].maxlen), self.death_strings)) // 2,
         )
+
+        # All incoming data must pass through every ringbuffer, even after a
+        # match was found.  The first match is raised in the end.
+        pending: typing.Optional[DeathStringException] = None
 
         for chunk in (
             incoming[i : i + chunk_size] for i in range(0, len(incoming), chunk_size)
         ):
             for string, exception_type, ringbuf in self.death_strings:
                 ringbuf.extend(chunk)
+                if pending is not None:
+                    continue
+
                 ringbuf_bytes = bytes(ringbuf)
 
                 if isinstance(string, bytes):
                     if string in ringbuf_bytes:
-                        raise exception_type(string)
+                        pending = exception_type(string)
                 elif isinstance(string, BoundedPattern):
                     match = string.pattern.search(ringbuf_bytes)
                     if match is not None:
-                        raise exception_type(match[0])
+                        pending = exception_type(match[0])
                 else:
                     raise AssertionError(
                         f"death string has unknown type: {string.__class__!r}"
                     )
+
+        if pending is not None:
+            raise pending
 
     # }}}
 
